@@ -131,6 +131,9 @@ impl Family for ThreadFam {
             }
         }
     }
+    fn yields(op: &TOp) -> Option<bool> {
+        Some(matches!(op, TOp::Yield))
+    }
     fn m_init(_cfg: &bool, n: usize) -> Vec<u32> {
         vec![0; n]
     }
